@@ -1352,6 +1352,13 @@ def check_c05(model, rep, tier):
     r_legacy_map(model, rep)
     r_option_lookup(model, rep)
     r_doc_sections(model, rep, sorted(DOC_SECTIONS))
+    # the 0.3 rpm manifest reader reads the compose section like the current one
+    f03 = model.own_method("rpms.Rpms", "deserialize_0_3")
+    c03 = facts.fctx(model, f03)
+    want03 = ("call", ("attr", ("attr", P(c03.selfname), "compose"), "deserialize"), (("sub", P(c03.params[1]), ("const", "payload")),), ())
+    ok03 = any(ev.kind == "call" and ev.value == want03 and not ev.guards and not ev.loops for ev in c03.events)
+    rep.ob("R-LEGACY-MAP", "rpms.Rpms.deserialize_0_3:compose", ok03, site=c03.site(f03.node),
+           msg="" if ok03 else "the 0.3 reader must read the compose section from data['payload'] unconditionally")
     r_fix_path_identity(model, rep, relative_clause=True)
     r_upgrade_reloadable(model, rep)
     from .sources import r_src_route
